@@ -230,6 +230,21 @@ func worldC03(w *World) {
 		resps[i] = genResponse(t, w.Tier == "thorough")
 	}
 	declaredStyle := t.Choice(2, "declaredstyle")
+	netfault := w.Cfg == "netfault"
+	if netfault {
+		// the agent's connections to the proxy are reset at tape-chosen offsets: a
+		// response may then not arrive at all, but whatever arrives complete must be right
+		nf := t.Range(1, 3, "nfaults")
+		for i := 0; i < nf; i++ {
+			w.K.Faults = append(w.K.Faults, &sim.NetFault{ToAddr: "proxy:80", ConnOrd: t.Range(1, 8, "faultconn"), Dir: t.Choice(2, "faultdir"), AtByte: int64([]int{0, 1, 60, 200, 300, 500, 4000, 5000}[t.Choice(8, "faultat")]), Kind: sim.FaultReset, Once: true})
+		}
+		for _, g := range resps {
+			// slow producers keep uploads in flight when the fault hits
+			if g.Pause == 0 {
+				g.Pause = 20 * time.Millisecond
+			}
+		}
+	}
 	startProxy(w)
 	rb := &rawBackend{}
 	rb.Respond = func(c net.Conn, req *wireMsg, k int) bool {
